@@ -658,6 +658,10 @@ def search(ctx):
     r = ctx.rng
     hard = bool(ctx.brokens)
 
+    def esc():
+        """enlarged budget: a proof or the correspondence broke and no failing input is known yet"""
+        return hard and not ctx.fails
+
     # a. the 14 tables of the running module, entry by entry, + rcon + number_of_rounds
     defs = table_defs()
     for (name, x), v in defs.items():
@@ -705,7 +709,7 @@ def search(ctx):
                              "SP 800-38A appendix F vector: got %r" % (got,))
 
     # c. raw block cipher against the definition-level AES, inverse
-    for _ in range(ctx.budget(150, 6000) * (4 if hard else 1)):
+    for _ in range(ctx.budget(150, 6000) * (4 if esc() else 1)):
         k = rkey(r)
         b = rbytes(r, 16)
         a = aes.AES(k)
@@ -718,7 +722,7 @@ def search(ctx):
     # every byte value in every position of key and block (single-byte perturbations of random bases)
     for n in (16, 24, 32):
         base_k, base_b = rbytes(r, n), rbytes(r, 16)
-        vals = range(256) if (hard or not ctx.quick()) else sorted(set([0, 1, 0x7f, 0x80, 0xff] + [r.randrange(256) for _ in range(6)]))
+        vals = range(256) if (esc() or not ctx.quick()) else sorted(set([0, 1, 0x7f, 0x80, 0xff] + [r.randrange(256) for _ in range(6)]))
         for pos in range(16):
             for v in vals:
                 b = base_b[:pos] + bytes([v]) + base_b[pos + 1:]
@@ -735,9 +739,56 @@ def search(ctx):
             if len(ctx.fails) > 8:
                 break
 
-    # d. feeders: every split of lengths 1..L into <= 4 chunks (L = 40 in thorough), all modes, both directions
+    # d. the adapter: zero-padded CBC, mac, inverse; every length 0..64, given / zero / no IV
+    for n in range(0, 65 if ctx.quick() and not esc() else 200):
+        for iv in (None, bytes(16), rbytes(r, 16)):
+            k = rkey(r, 16)
+            tails = [rbytes(r, n)]
+            if n:
+                tails.append(rbytes(r, n - 1) + b"\0")          # data ending in zero bytes
+                tails.append(rbytes(r, max(n - 17, 0)) + bytes(min(n, 17)))
+            for x in tails:
+                ctx.case(("search-adapter", k, iv, x), trivial=(n == 0))
+                if n == 0:
+                    a = plug.AES128Proxy(k, iv)
+                    if (a.encrypt(b""), a.decrypt(b""), a.mac(b"")) != (b"", b"", b""):
+                        ctx.fail("adapter-not-zero-padded-cbc", {"key": k, "iv": iv, "data": x}, "empty data")
+                    continue
+                why = adapter_predicate(plug, k, iv, x)
+                if why:
+                    ctx.fail("adapter-not-zero-padded-cbc", {"key": k, "iv": iv, "data": x}, why)
+        if len(ctx.fails) > 8:
+            break
+    # e. history independence: the same call on a used object, on a fresh one, and after calls on other objects
+    for _ in range(ctx.budget(120, 4000) * (4 if esc() else 1)):
+        k = rkey(r, 16)
+        iv = riv(r)
+        used = create_AES128(k, iv)
+        other = create_AES128(k if r.random() < 0.5 else rkey(r, 16), riv(r))
+        hist = []
+        for _c in range(r.randrange(1, 7)):
+            a = r.choice([used, used, other])
+            op = r.choice(["encrypt", "decrypt", "mac"])
+            x = rbytes(r, 16 * r.randrange(0, 4)) if op == "decrypt" else rbytes(r, r.randrange(0, 50))
+            run_impl(getattr(a, op), x)
+            hist.append((("used" if a is used else "other"), op, x))
+        x = rbytes(r, r.randrange(1, 50))
+        xc = rbytes(r, 16 * r.randrange(1, 4))
+        ctx.case(("search-history", k, iv, tuple(hist), x))
+        fresh = create_AES128(k, iv)
+        for op, arg in (("encrypt", x), ("mac", x), ("decrypt", xc)):
+            a1 = run_impl(getattr(used, op), arg)
+            a2 = run_impl(getattr(fresh, op), arg)
+            a3 = run_impl(getattr(create_AES128(k, iv), op), arg)
+            if not (a1 == a2 == a3):
+                ctx.fail("adapter-history-dependent", {"key": k, "iv": iv, "history": hist, "op": op, "data": arg},
+                         "used object: %r, fresh object: %r" % (a1, a2))
+        why = adapter_predicate(plug, k, iv, x)
+        if why:
+            ctx.fail("adapter-not-zero-padded-cbc", {"key": k, "iv": iv, "data": x}, why)
+    # f. feeders: every split of lengths 1..L into <= 4 chunks (lengths L+1..40 sampled), all modes, both directions
     # exhaustive up to L; lengths L+1..40 get sampled splits below
-    L = 18 if (ctx.quick() and not hard) else 26 if ctx.quick() else 28
+    L = 18 if (ctx.quick() and not esc()) else 26 if ctx.quick() else 28
     combos = []
     for mode in MODES:
         m = mode[0] if isinstance(mode, tuple) else mode
@@ -750,7 +801,7 @@ def search(ctx):
             m = mode[0] if isinstance(mode, tuple) else mode
             if m in ("ECB", "CBC") and padding == "none" and n % 16:
                 continue
-            if ctx.quick() and not hard and isinstance(mode, tuple) and mode[1] in (2, 8) and n % 3:
+            if ctx.quick() and not esc() and isinstance(mode, tuple) and mode[1] in (2, 8) and n % 3:
                 continue
             k, iv, ctr = rkey(r), riv(r, mode), rctr(r)
             data = rbytes(r, n)
@@ -800,7 +851,7 @@ def search(ctx):
                               "chunks": chunks}, why)
                     break
     # longer inputs, random splits incl. empty chunks
-    for _ in range(ctx.budget(150, 5000) * (4 if hard else 1)):
+    for _ in range(ctx.budget(150, 5000) * (4 if esc() else 1)):
         mode, d, padding = r.choice(combos)
         m = mode[0] if isinstance(mode, tuple) else mode
         k, iv, ctr = rkey(r), riv(r, mode), rctr(r)
@@ -829,53 +880,6 @@ def search(ctx):
                 break
             c.increment()
 
-    # e. the adapter: zero-padded CBC, mac, inverse; every length 0..64, given / zero / no IV
-    for n in range(0, 65 if ctx.quick() and not hard else 200):
-        for iv in (None, bytes(16), rbytes(r, 16)):
-            k = rkey(r, 16)
-            tails = [rbytes(r, n)]
-            if n:
-                tails.append(rbytes(r, n - 1) + b"\0")          # data ending in zero bytes
-                tails.append(rbytes(r, max(n - 17, 0)) + bytes(min(n, 17)))
-            for x in tails:
-                ctx.case(("search-adapter", k, iv, x), trivial=(n == 0))
-                if n == 0:
-                    a = plug.AES128Proxy(k, iv)
-                    if (a.encrypt(b""), a.decrypt(b""), a.mac(b"")) != (b"", b"", b""):
-                        ctx.fail("adapter-not-zero-padded-cbc", {"key": k, "iv": iv, "data": x}, "empty data")
-                    continue
-                why = adapter_predicate(plug, k, iv, x)
-                if why:
-                    ctx.fail("adapter-not-zero-padded-cbc", {"key": k, "iv": iv, "data": x}, why)
-        if len(ctx.fails) > 8:
-            break
-    # f. history independence: the same call on a used object, on a fresh one, and after calls on other objects
-    for _ in range(ctx.budget(120, 4000) * (4 if hard else 1)):
-        k = rkey(r, 16)
-        iv = riv(r)
-        used = create_AES128(k, iv)
-        other = create_AES128(k if r.random() < 0.5 else rkey(r, 16), riv(r))
-        hist = []
-        for _c in range(r.randrange(1, 7)):
-            a = r.choice([used, used, other])
-            op = r.choice(["encrypt", "decrypt", "mac"])
-            x = rbytes(r, 16 * r.randrange(0, 4)) if op == "decrypt" else rbytes(r, r.randrange(0, 50))
-            run_impl(getattr(a, op), x)
-            hist.append((("used" if a is used else "other"), op, x))
-        x = rbytes(r, r.randrange(1, 50))
-        xc = rbytes(r, 16 * r.randrange(1, 4))
-        ctx.case(("search-history", k, iv, tuple(hist), x))
-        fresh = create_AES128(k, iv)
-        for op, arg in (("encrypt", x), ("mac", x), ("decrypt", xc)):
-            a1 = run_impl(getattr(used, op), arg)
-            a2 = run_impl(getattr(fresh, op), arg)
-            a3 = run_impl(getattr(create_AES128(k, iv), op), arg)
-            if not (a1 == a2 == a3):
-                ctx.fail("adapter-history-dependent", {"key": k, "iv": iv, "history": hist, "op": op, "data": arg},
-                         "used object: %r, fresh object: %r" % (a1, a2))
-        why = adapter_predicate(plug, k, iv, x)
-        if why:
-            ctx.fail("adapter-not-zero-padded-cbc", {"key": k, "iv": iv, "data": x}, why)
     ctx.extra["rule"] = (
         "correspondence (model evaluated in Coq with vm_compute vs implementation): raw block encrypt/decrypt for the three "
         "key sizes (random/zero/ff/high-bit keys and blocks) + wrong key/block sizes; call histories on 1..3 interleaved "
